@@ -2202,6 +2202,14 @@ def lex_tokens(line):
 
 # helper for parsing immediates since they occur in multiple places
 def parse_immediate(imm, line):
+    try:
+        return parse_immediate_tokens(imm, line)
+    except (ValueError, IndexError):
+        # a %position / %offset / %hi / %lo with operands missing or left over
+        raise AssemblerError('malformed immediate value', line)
+
+
+def parse_immediate_tokens(imm, line):
     if len(imm) == 0:
         raise AssemblerError('empty immediate value', line)
 
